@@ -110,8 +110,9 @@ Inductive exp :=
 | EDot (e : exp) (k : N)                          (* spelling: e.name = e["name"] *)
 | ECall (f : exp) (m : option N) (bare : bool) (args : list exp)
     (* bare (spelling): f{..} / f"s" without parentheses, when args is one table or string *)
-| EParen (e : exp)                                (* explicit parentheses; kept by the parser
-                                                     only around a call (ast.BFunctionCall) *)
+| EParen (e : exp)                                (* explicit parentheses; kept by the parser only
+                                                     around a call (ast.BFunctionCall) and around
+                                                     '...' (ast.UnOp{OpId, Etc}) *)
 | ETable (fs : list (fkind * exp * exp * bool)) (trail : bool)   (* trail (spelling): separator after last field *)
 | EUn (o : unop) (e : exp)
 | EBin (o : binop) (l r : exp).
@@ -119,6 +120,25 @@ Inductive exp :=
 Definition field := (fkind * exp * exp * bool)%type.
 
 Definition is_call (e : exp) : bool := match e with ECall _ _ _ _ => true | _ => false end.
+
+(* Lua 5.4 manual §3.4.12: function calls and '...' are the multi-valued
+   expressions; enclosing one in parentheses adjusts it to one value, so for
+   them (and only for them) parentheses are meaningful. *)
+Definition multi_valued (e : exp) : bool :=
+  match e with
+  | ECall _ _ _ _ | EEtc => true
+  | _ => false
+  end.
+
+(* Parser.PrefixExp after '(' exp:  switch e := exp.(type) { case ast.FunctionCall:
+   exp = e.InBrackets(); case ast.Etc: exp = ast.NewUnOp(bktTok, ops.OpId, e) } —
+   the parenthesised forms of the two multi-valued expressions are kept as nodes
+   (both are dumped as (paren …) by the harness). *)
+Definition in_brackets (e : exp) : exp :=
+  match e with
+  | ECall _ _ _ _ | EEtc => EParen e
+  | _ => e
+  end.
 
 (* the "level" of an expression as a piece of concrete syntax: binary operators
    by precedence, unary 10, simple expressions 12, prefix expressions 13 *)
